@@ -19,19 +19,8 @@ from sa.selftest.shape import KINDS  # noqa: E402
 def main():
     kind = sys.argv[1]
     props = sys.argv[2:] or ALL
-    overlay = {}
-    for dp, dn, fn in os.walk("/repo/synkit"):
-        for f in fn:
-            if f.endswith(".py"):
-                path = os.path.join(dp, f)
-                try:
-                    t = KINDS[kind]().visit(ast.parse(open(path).read()))
-                    ast.fix_missing_locations(t)
-                    src = ast.unparse(t)
-                    compile(src, path, "exec")
-                    overlay[os.path.relpath(path, "/repo")] = src
-                except Exception as exc:
-                    pass
+    from sa.selftest.shape import reshaped_package
+    overlay = dict(reshaped_package("/repo", kind))
     for p in props:
         code, rep, _ = analyse(p, "/repo", "quick", quiet=True, overlay=dict(overlay))
         v = rep.result.get("violations", [])
